@@ -1314,4 +1314,824 @@ theorem intToChars_text (T : IntTy) (len : Nat) (v : Int) (base : Nat)
         rw [if_pos c]; simp
 
 
+/-! ### C14, fractional half: the value invariant of `descale` -/
+
+theorem natAbs_split (sig : Int) (k : Nat) :
+    sig.natAbs = k * (sig.tdiv k).natAbs + (sig.tmod k).natAbs := by
+  rw [natAbs_tdiv_nat, natAbs_tmod_nat]; exact (Nat.div_add_mod _ _).symm
+
+theorem oob_gt (S : IntTy) (neg : Bool) (sig : Int) (h : SigOK S neg sig)
+    (ho : oobSig S neg sig = true) : S.max.toNat < 10 * sig.natAbs := by
+  obtain ⟨_, _, h3⟩ := h
+  unfold oobSig at ho
+  cases neg with
+  | true => simp only [if_true, decide_eq_true_eq] at ho h3; omega
+  | false => simp at ho h3; omega
+
+theorem div_step_arith (R a' r T M A Q j c : Nat)
+    (h1 : A * Q ≤ a' * T)
+    (h2 : a' * T * M ≤ A * Q * M + a' * T * (j * c))
+    (hr : r = 0 ∨ r * M ≤ c * (R * a' + r)) :
+    A * (Q * R) ≤ (R * a' + r) * T ∧
+    (R * a' + r) * T * M ≤ A * (Q * R) * M + (R * a' + r) * T * ((j + if r = 0 then 0 else 1) * c) := by
+  have f1 := Nat.mul_le_mul_left R h1
+  have f2 := Nat.mul_le_mul_left R h2
+  constructor
+  · grind
+  · by_cases h0 : r = 0
+    · subst h0; simp only [if_true]; grind
+    · have hr' : r * M ≤ c * (R * a' + r) := by
+        rcases hr with h | h
+        · exact absurd h h0
+        · exact h
+      have f3 := Nat.mul_le_mul_right T hr'
+      simp only [h0, if_false]
+      grind
+
+/-- the remainder lost by a division that happens out of headroom is small against the significand -/
+theorem lossy_rem_small (S : IntTy) (neg : Bool) (sig : Int) (R : Nat) (hR1 : 1 ≤ R) (hok : SigOK S neg sig)
+    (h : sig.tmod R = 0 ∨ oobSig S neg sig = true) :
+    (sig.tmod R).natAbs = 0 ∨
+    (sig.tmod R).natAbs * S.max.toNat ≤ 10 * (R - 1) * (R * (sig.tdiv R).natAbs + (sig.tmod R).natAbs) := by
+  rcases h with h | h
+  · left; rw [h]; rfl
+  · right
+    rw [← natAbs_split]
+    have h1 := oob_gt S neg sig hok h
+    have h2 : (sig.tmod R).natAbs ≤ R - 1 := by
+      rw [natAbs_tmod_nat]
+      have := Nat.mod_lt sig.natAbs (by omega : 0 < R)
+      omega
+    have := Nat.mul_le_mul h2 (Nat.le_of_lt h1)
+    grind
+
+/-- value invariant of the negative-exponent loop, relative to the state it is entered with:
+`m` multiplications by ten and `j` lossy divisions later, `|d.sig|·R^ie ≤ |sig|·10^m`, and the shortfall is at most
+`j · 10(R−1)/max` of the entry value -/
+theorem descaleNeg_value (S : IntTy) (hs : S.signed = true) (h8 : 8 ≤ S.bits) (neg : Bool) (R : Nat)
+    (hR2 : 2 ≤ R) (hR : R ≤ 10) :
+    ∀ fuel sig x ie k d, SigOK S neg sig → descaleNeg S neg R fuel sig x ie k = .ok d →
+      ∃ m j : Nat, d.exp = x - m ∧ d.lossy = k + j ∧
+        d.sig.natAbs * R ^ ie ≤ sig.natAbs * 10 ^ m ∧
+        sig.natAbs * 10 ^ m * S.max.toNat ≤
+          d.sig.natAbs * R ^ ie * S.max.toNat + sig.natAbs * 10 ^ m * (j * (10 * (R - 1))) := by
+  have hM := max_ge_127 S hs h8
+  obtain ⟨hl0, hm0⟩ := sigOK_bounds S hs
+  intro fuel
+  induction fuel with
+  | zero => intro sig x ie k d _ h; simp [descaleNeg] at h
+  | succ n ih =>
+    intro sig x ie k d hok h
+    cases ie with
+    | zero =>
+      simp only [descaleNeg] at h
+      cases h
+      exact ⟨0, 0, by simp, by simp, by simp, by simp⟩
+    | succ ie =>
+      by_cases hc : sig.tmod R ≠ 0 ∧ oobSig S neg sig = false
+      · obtain ⟨hin, hok'⟩ := step_mul10 S hs neg sig hok hc.2
+        simp only [descaleNeg, hc, and_self, if_true, ne_eq, not_false_eq_true, mulS_ok (by omega) hin] at h
+        obtain ⟨m, j, e1, e2, e3, e4⟩ := ih _ _ _ _ _ hok' h
+        have hn : (sig * ((10 : Nat) : Int)).natAbs = sig.natAbs * 10 := by
+          rw [Int.natAbs_mul]; rfl
+        rw [hn] at e3 e4
+        refine ⟨m + 1, j, by omega, e2, ?_, ?_⟩
+        · rw [Nat.pow_succ]; grind
+        · rw [Nat.pow_succ]; grind
+      · simp only [descaleNeg, hc, if_false] at h
+        have hor : sig.tmod R = 0 ∨ oobSig S neg sig = true := by
+          by_cases ht : sig.tmod R = 0
+          · exact Or.inl ht
+          · right
+            cases hoo : oobSig S neg sig with
+            | true => rfl
+            | false => exact absurd ⟨ht, hoo⟩ hc
+        have hbig : sig.tmod R = 0 ∨ R ≤ sig.natAbs := by
+          rcases hor with ht | ho
+          · exact Or.inl ht
+          · right; have := oob_big S hM neg sig hok ho; omega
+        have hok' := step_div S hl0 hm0 neg sig R hR2 hok hbig
+        obtain ⟨m, j, e1, e2, e3, e4⟩ := ih _ _ _ _ _ hok' h
+        have hsm := lossy_rem_small S neg sig R (by omega) hok hor
+        have hsplit := natAbs_split sig R
+        obtain ⟨g1, g2⟩ := div_step_arith R (sig.tdiv R).natAbs (sig.tmod R).natAbs (10 ^ m) S.max.toNat
+          d.sig.natAbs (R ^ ie) j (10 * (R - 1)) e3 e4 hsm
+        rw [← hsplit] at g1 g2
+        refine ⟨m, j + (if (sig.tmod R).natAbs = 0 then 0 else 1), e1, ?_, ?_, ?_⟩
+        · rw [e2]
+          by_cases ht : sig.tmod R = 0
+          · have h0 : (sig.tmod R).natAbs = 0 := by omega
+            have hn : ¬ (sig.tmod R ≠ 0) := by omega
+            rw [if_neg hn, if_pos h0]; rfl
+          · have h0 : (sig.tmod R).natAbs ≠ 0 := by omega
+            rw [if_pos ht, if_neg h0]; omega
+        · rw [Nat.pow_succ]; exact g1
+        · rw [Nat.pow_succ]; exact g2
+
+/-- value invariant of the non-negative-exponent loop, relative to the state it is entered with -/
+theorem descalePos_value (S : IntTy) (hs : S.signed = true) (h8 : 8 ≤ S.bits) (neg : Bool) (R : Nat)
+    (hR1 : 1 ≤ R) (hR : R ≤ 10) :
+    ∀ fuel sig x ie k d, SigOK S neg sig → descalePos S neg R fuel sig x ie k = .ok d →
+      ∃ m j : Nat, d.exp = x + m ∧ d.lossy = k + j ∧
+        d.sig.natAbs * 10 ^ m ≤ sig.natAbs * R ^ ie ∧
+        sig.natAbs * R ^ ie * S.max.toNat ≤
+          d.sig.natAbs * 10 ^ m * S.max.toNat + sig.natAbs * R ^ ie * (j * 90) := by
+  have hM := max_ge_127 S hs h8
+  obtain ⟨hl0, hm0⟩ := sigOK_bounds S hs
+  intro fuel
+  induction fuel with
+  | zero => intro sig x ie k d _ h; simp [descalePos] at h
+  | succ n ih =>
+    intro sig x ie k d hok h
+    by_cases h1 : ie = 0 ∧ sig.tmod 10 ≠ 0
+    · simp only [descalePos, h1, and_self, if_true, ne_eq, not_false_eq_true] at h
+      cases h
+      refine ⟨0, 0, by simp, by simp, ?_, ?_⟩ <;> simp [h1.1]
+    · by_cases h2 : sig.tmod 10 = 0 ∨ oobSig S neg sig = true
+      · simp only [descalePos, h1, h2, if_false, if_true] at h
+        have hor : sig.tmod ((10 : Nat) : Int) = 0 ∨ oobSig S neg sig = true := h2
+        have hbig : sig.tmod ((10 : Nat) : Int) = 0 ∨ 10 ≤ sig.natAbs := by
+          rcases h2 with h2 | h2
+          · exact Or.inl h2
+          · right; have := oob_big S hM neg sig hok h2; omega
+        have hok' : SigOK S neg (sig.tdiv 10) := step_div S hl0 hm0 neg sig 10 (by omega) hok hbig
+        obtain ⟨m, j, e1, e2, e3, e4⟩ := ih _ _ _ _ _ hok' h
+        have hsm := lossy_rem_small S neg sig 10 (by omega) hok hor
+        have hsplit := natAbs_split sig 10
+        have e3' : d.sig.natAbs * 10 ^ m ≤ (sig.tdiv ((10 : Nat) : Int)).natAbs * R ^ ie := e3
+        have e4' : (sig.tdiv ((10 : Nat) : Int)).natAbs * R ^ ie * S.max.toNat ≤
+            d.sig.natAbs * 10 ^ m * S.max.toNat + (sig.tdiv ((10 : Nat) : Int)).natAbs * R ^ ie * (j * 90) := e4
+        obtain ⟨g1, g2⟩ := div_step_arith 10 (sig.tdiv ((10 : Nat) : Int)).natAbs (sig.tmod ((10 : Nat) : Int)).natAbs (R ^ ie)
+          S.max.toNat d.sig.natAbs (10 ^ m) j 90 e3' e4' hsm
+        rw [← hsplit] at g1 g2
+        refine ⟨m + 1, j + (if (sig.tmod ((10 : Nat) : Int)).natAbs = 0 then 0 else 1), by omega, ?_, ?_, ?_⟩
+        · rw [e2]
+          by_cases ht : sig.tmod 10 = 0
+          · have h0 : (sig.tmod ((10 : Nat) : Int)).natAbs = 0 := by
+              have : sig.tmod ((10 : Nat) : Int) = 0 := ht
+              omega
+            have hn : ¬ (sig.tmod 10 ≠ 0) := by omega
+            rw [if_neg hn, if_pos h0]; rfl
+          · have h0 : (sig.tmod ((10 : Nat) : Int)).natAbs ≠ 0 := by
+              have : sig.tmod ((10 : Nat) : Int) ≠ 0 := ht
+              omega
+            rw [if_pos ht, if_neg h0]; omega
+        · rw [Nat.pow_succ]; exact g1
+        · rw [Nat.pow_succ]; exact g2
+      · simp only [descalePos, h1, h2, if_false] at h
+        have htm : sig.tmod 10 ≠ 0 := fun h0 => h2 (Or.inl h0)
+        have hie : ie ≠ 0 := fun h0 => h1 ⟨h0, htm⟩
+        have ho : oobSig S neg sig = false := by
+          cases hoo : oobSig S neg sig with
+          | false => rfl
+          | true => exact absurd (Or.inr hoo) h2
+        obtain ⟨hin, hok'⟩ := step_mulR S hs neg sig R hR1 hR hok ho
+        simp only [mulS_ok (by omega) hin] at h
+        cases ie with
+        | zero => exact absurd rfl hie
+        | succ i =>
+          simp only [Nat.add_sub_cancel] at h
+          obtain ⟨m, j, e1, e2, e3, e4⟩ := ih _ _ _ _ _ hok' h
+          have hn : (sig * (R : Int)).natAbs = sig.natAbs * R := by
+            rw [Int.natAbs_mul]; rfl
+          rw [hn] at e3 e4
+          refine ⟨m, j, e1, e2, ?_, ?_⟩
+          · rw [Nat.pow_succ]; grind
+          · rw [Nat.pow_succ]; grind
+/-- loss per lossy division, as a multiple of `value / max`: `10(R−1)` in the negative-exponent loop (the
+remainder of a division by `R` is at most `R−1`, the significand exceeds `max/10`), `90` in the other -/
+def lossUnit (R : Nat) (e : Int) : Nat := if e < 0 then 10 * (R - 1) else 90
+
+theorem lossUnit_le (R : Nat) (e : Int) (hR : R ≤ 10) : lossUnit R e ≤ 90 := by
+  unfold lossUnit; split <;> omega
+
+/-- **value invariant of `descale`** (signed significand type, every input, exponent, radix 2…10):
+with `num/den = |input|·R^e`, `s = |d.sig|`, `x = d.exp`:
+`s·10^x ≤ num/den` and `num/den − s·10^x ≤ (num/den) · lossy · lossUnit / max`, cross-multiplied in ℕ -/
+theorem descale_value (S : IntTy) (hs : S.signed = true) (h8 : 8 ≤ S.bits) (input e : Int) (R : Nat)
+    (hR2 : 2 ≤ R) (hR : R ≤ 10) (hr : S.InRange input) (h0 : input ≠ 0) (d : Desc)
+    (hd : descale S input e R = .ok d) :
+    d.sig.natAbs * 10 ^ d.exp.toNat * (exactFrac input.natAbs R e).2 ≤
+      (exactFrac input.natAbs R e).1 * 10 ^ (-d.exp).toNat ∧
+    (exactFrac input.natAbs R e).1 * 10 ^ (-d.exp).toNat * S.max.toNat ≤
+      d.sig.natAbs * 10 ^ d.exp.toNat * (exactFrac input.natAbs R e).2 * S.max.toNat +
+      (exactFrac input.natAbs R e).1 * 10 ^ (-d.exp).toNat * (d.lossy * lossUnit R e) := by
+  unfold descale at hd
+  simp only [h0, if_false] at hd
+  rw [IntTy.wrap_id (by omega) hr] at hd
+  have hok : SigOK S (decide (input < 0)) input := by
+    refine ⟨hr.1, hr.2, ?_⟩
+    by_cases hn : input < 0 <;> simp [hn]; omega
+  by_cases hn : e < 0
+  · simp only [hn, if_true] at hd
+    obtain ⟨m, j, e1, e2, e3, e4⟩ := descaleNeg_value S hs h8 _ R hR2 hR _ _ _ _ _ d hok hd
+    have hx1 : d.exp.toNat = 0 := by omega
+    have hx2 : (-d.exp).toNat = m := by omega
+    have hge : ¬ e ≥ 0 := by omega
+    have hie : (-e).toNat = e.natAbs := by omega
+    have hj : d.lossy = j := by omega
+    simp only [exactFrac, hge, if_false, hx1, hx2, lossUnit, hn, if_true, hie, hj, Nat.pow_zero, Nat.mul_one]
+    exact ⟨e3, e4⟩
+  · simp only [hn, if_false] at hd
+    obtain ⟨m, j, e1, e2, e3, e4⟩ := descalePos_value S hs h8 _ R (by omega) hR _ _ _ _ _ d hok hd
+    have hx1 : d.exp.toNat = m := by omega
+    have hx2 : (-d.exp).toNat = 0 := by omega
+    have hge : e ≥ 0 := by omega
+    have hie : e.toNat = e.natAbs := by omega
+    have hj : d.lossy = j := by omega
+    simp only [exactFrac, hge, if_true, hx1, hx2, lossUnit, hn, if_false, hie, hj, Nat.pow_zero, Nat.mul_one]
+    exact ⟨e3, e4⟩
+
+
+/-! ### reading the digit strings back -/
+
+theorem isDigit_itoc : ∀ d, d < 10 → isDigit (itoc d) = true := by decide
+
+def AllDigit (cs : List Char) : Prop := ∀ c ∈ cs, isDigit c = true
+
+theorem natDigitsF_allDigit : ∀ fuel v, AllDigit (natDigitsF 10 fuel v) := by
+  intro fuel
+  induction fuel with
+  | zero => intro v c hc; simp [natDigitsF] at hc
+  | succ n ih =>
+    intro v c hc
+    have hm : isDigit (itoc (v % 10)) = true := isDigit_itoc _ (Nat.mod_lt _ (by omega))
+    by_cases hq : v / 10 = 0
+    · simp [natDigitsF, hq] at hc; rw [hc]; exact hm
+    · simp only [natDigitsF, hq, if_false, List.mem_append, List.mem_singleton] at hc
+      rcases hc with hc | hc
+      · exact ih _ c hc
+      · rw [hc]; exact hm
+
+theorem natDigits_allDigit (v : Nat) : AllDigit (natDigits 10 v) := natDigitsF_allDigit v v
+
+theorem allDigit_take {cs : List Char} (h : AllDigit cs) (n : Nat) : AllDigit (cs.take n) :=
+  fun c hc => h c (List.mem_of_mem_take hc)
+
+theorem allDigit_drop {cs : List Char} (h : AllDigit cs) (n : Nat) : AllDigit (cs.drop n) :=
+  fun c hc => h c (List.mem_of_mem_drop hc)
+
+theorem allDigit_zeros (z : Nat) : AllDigit (List.replicate z '0') := by
+  intro c hc
+  rw [(List.mem_replicate.mp hc).2]; decide
+
+theorem allDigit_append {xs ys : List Char} (hx : AllDigit xs) (hy : AllDigit ys) : AllDigit (xs ++ ys) := by
+  intro c hc
+  rcases List.mem_append.mp hc with h | h
+  · exact hx c h
+  · exact hy c h
+
+/-- the rest of a text after a run of digits: empty, or starting with a non-digit -/
+def Stops (rest : List Char) : Prop := rest = [] ∨ ∃ c r, rest = c :: r ∧ isDigit c = false
+
+theorem spanDigits_append (xs rest : List Char) (hx : AllDigit xs) (hr : Stops rest) :
+    spanDigits (xs ++ rest) = (xs, rest) := by
+  induction xs with
+  | nil =>
+    rcases hr with h | ⟨c, r, h, hc⟩
+    · subst h; rfl
+    · subst h; simp [spanDigits, hc]
+  | cons c cs ih =>
+    have hc : isDigit c = true := hx c (by simp)
+    have := ih (fun d hd => hx d (by simp [hd]))
+    simp [spanDigits, hc, this]
+
+/-- a prefix of the digit string of `v` is the numeral of `v` with the other digits divided away -/
+theorem natDigitsF_take_value (base : Nat) (h2 : 2 ≤ base) (h36 : base ≤ 36) :
+    ∀ fuel v, 0 < v → v ≤ fuel → ∀ n, n ≤ (natDigitsF base fuel v).length →
+      digitsValue base ((natDigitsF base fuel v).take n) 0 =
+        some (v / base ^ ((natDigitsF base fuel v).length - n)) := by
+  intro fuel
+  induction fuel with
+  | zero => intro v h0 h1; omega
+  | succ k ih =>
+    intro v h0 h1 n hn
+    by_cases hfull : n = (natDigitsF base (k + 1) v).length
+    · rw [hfull, List.take_length, Nat.sub_self, Nat.pow_zero, Nat.div_one]
+      exact natDigitsF_value base h2 h36 (k + 1) v h0 h1
+    · by_cases hq : v / base = 0
+      · simp only [natDigitsF, hq, if_true, List.length_cons, List.length_nil] at hn hfull ⊢
+        have : n = 0 := by omega
+        subst this
+        simp [digitsValue, hq]
+      · simp only [natDigitsF, hq, if_false, List.length_append, List.length_cons, List.length_nil] at hn hfull ⊢
+        have hlt : v / base < v := Nat.div_lt_self h0 (by omega)
+        have hn' : n ≤ (natDigitsF base k (v / base)).length := by omega
+        rw [List.take_append_of_le_length hn',
+          ih (v / base) (Nat.pos_of_ne_zero hq) (Nat.le_of_lt_succ (Nat.lt_of_lt_of_le hlt h1)) n hn']
+        congr 1
+        have : (natDigitsF base k (v / base)).length + 1 - n = ((natDigitsF base k (v / base)).length - n) + 1 := by omega
+        rw [this, Nat.pow_succ, Nat.mul_comm, Nat.div_div_eq_div_mul]
+
+theorem natDigits_take_value (v n : Nat) (h0 : 0 < v) (hn : n ≤ (natDigits 10 v).length) :
+    digitsValue 10 ((natDigits 10 v).take n) 0 = some (v / 10 ^ ((natDigits 10 v).length - n)) :=
+  natDigitsF_take_value 10 (by omega) (by omega) v v h0 (Nat.le_refl _) n hn
+
+theorem digitsValue_zeros (z acc : Nat) : digitsValue 10 (List.replicate z '0') acc = some (acc * 10 ^ z) := by
+  induction z generalizing acc with
+  | zero => simp [digitsValue]
+  | succ k ih =>
+    have h0 : digitVal '0' = some 0 := by decide
+    simp only [List.replicate_succ, digitsValue, h0]
+    rw [if_pos (by omega), ih, Nat.pow_succ]
+    congr 1
+    rw [Nat.add_zero, Nat.mul_assoc, Nat.mul_comm 10]
+
+theorem digitsValue_zeros_left (z : Nat) (xs : List Char) :
+    digitsValue 10 (List.replicate z '0' ++ xs) 0 = digitsValue 10 xs 0 := by
+  rw [digitsValue_append, digitsValue_zeros]; simp
+
+theorem digitsValue_zeros_right (z : Nat) (xs : List Char) (v : Nat) (h : digitsValue 10 xs 0 = some v) :
+    digitsValue 10 (xs ++ List.replicate z '0') 0 = some (v * 10 ^ z) := by
+  rw [digitsValue_append, h]; simp [digitsValue_zeros]
+
+theorem expValue_intText (E : Int) : expValue ('e' :: intText 10 E) = some E := by
+  by_cases h0 : E = 0
+  · subst h0; decide
+  · by_cases hn : E < 0
+    · have hk := natDigitsF_value 10 (by omega) (by omega) (-E).toNat (-E).toNat (by omega) (Nat.le_refl _)
+      have hk' : digitsValue 10 (natDigits 10 (-E).toNat) 0 = some (-E).toNat := hk
+      obtain ⟨c, rest, he, _⟩ := natDigitsF_head 10 (by omega) (by omega) (-E).toNat (-E).toNat (by omega) (Nat.le_refl _)
+      have he' : natDigits 10 (-E).toNat = c :: rest := he
+      simp only [intText, h0, hn, if_false, if_true, expValue]
+      rw [he'] at hk' ⊢
+      simp [hk']; omega
+    · have hpos : 0 < E := by omega
+      have hk := natDigitsF_value 10 (by omega) (by omega) E.toNat E.toNat (by omega) (Nat.le_refl _)
+      have hk' : digitsValue 10 (natDigits 10 E.toNat) 0 = some E.toNat := hk
+      obtain ⟨c, rest, he, _⟩ := natDigitsF_head 10 (by omega) (by omega) E.toNat E.toNat (by omega) (Nat.le_refl _)
+      have he' : natDigits 10 E.toNat = c :: rest := he
+      have hcm : c ≠ '-' := by
+        intro h; subst h; rw [he'] at hk'
+        simp [digitsValue, digitVal] at hk'
+      have hcp : c ≠ '+' := by
+        intro h; subst h; rw [he'] at hk'
+        simp [digitsValue, digitVal] at hk'
+      simp only [intText, h0, hn, if_false]
+      rw [he'] at hk' ⊢
+      unfold expValue
+      split
+      · rename_i heq; cases heq
+      · rename_i heq; cases heq; exact absurd rfl hcm
+      · rename_i heq; cases heq; exact absurd rfl hcp
+      · rename_i heq; cases heq; simp [hk']; omega
+      · rename_i h1 h2 h3 h4; exact absurd rfl (h4 _)
+theorem unsignedDecimal_dot (ip fp tail : List Char) (hi : AllDigit ip) (hf : AllDigit fp)
+    (ht : tail = [] ∨ ∃ r, tail = 'e' :: r) (hne : ¬ (ip = [] ∧ fp = []))
+    (m : Nat) (hv : digitsValue 10 (ip ++ fp) 0 = some m) (E : Int) (hE : expValue tail = some E) :
+    unsignedDecimal (ip ++ '.' :: (fp ++ tail)) = some (m, E - (fp.length : Int)) := by
+  have s1 : spanDigits (ip ++ '.' :: (fp ++ tail)) = (ip, '.' :: (fp ++ tail)) :=
+    spanDigits_append ip _ hi (Or.inr ⟨'.', _, rfl, by decide⟩)
+  have s2 : spanDigits (fp ++ tail) = (fp, tail) := by
+    apply spanDigits_append fp _ hf
+    rcases ht with h | ⟨r, h⟩
+    · exact Or.inl h
+    · exact Or.inr ⟨'e', r, h, by decide⟩
+  have hne' : ¬ (ip.isEmpty = true ∧ fp.isEmpty = true) := by
+    simpa [List.isEmpty_iff] using hne
+  simp only [unsignedDecimal, s1, s2, hne', if_false, hv, hE]
+
+theorem unsignedDecimal_nodot (ip : List Char) (hi : AllDigit ip) (hne : ip ≠ [])
+    (m : Nat) (hv : digitsValue 10 ip 0 = some m) :
+    unsignedDecimal ip = some (m, 0) := by
+  have s1 : spanDigits ip = (ip, []) := by
+    have := spanDigits_append ip [] hi (Or.inl rfl)
+    simpa using this
+  have hne' : ¬ (ip.isEmpty = true ∧ ([] : List Char).isEmpty = true) := by
+    simpa [List.isEmpty_iff] using hne
+  have hE : expValue [] = some 0 := rfl
+  simp only [unsignedDecimal, s1, hne', if_false, List.append_nil, hv, hE]
+  simp
+
+theorem take_one_append_drop (ds : List Char) (n : Nat) (h : 1 ≤ n) :
+    ds.take 1 ++ (ds.take n).drop 1 = ds.take n := by
+  have : ds.take 1 = (ds.take n).take 1 := by
+    rw [List.take_take]; congr 1; omega
+  rw [this, List.take_append_drop]
+
+theorem take_append_drop_take (ds : List Char) (a n : Nat) (h : a ≤ n) :
+    ds.take a ++ (ds.take n).drop a = ds.take n := by
+  have : ds.take a = (ds.take n).take a := by
+    rw [List.take_take]; congr 1; omega
+  rw [this, List.take_append_drop]
+
+/-- the scientific layout reads back as the first `ns` digits, the last of them with weight `10^(x + dropped)` -/
+theorem sciText_denotes (sig : Nat) (h0 : 0 < sig) (x : Int) (s : Sci)
+    (h1 : 0 < s.numSig) (h2 : s.numSig ≤ (natDigits 10 sig).length) :
+    ∃ t, sciText (natDigits 10 sig) s (intText 10 (x + (natDigits 10 sig).length - 1)) = some t ∧
+      unsignedDecimal t = some (sig / 10 ^ ((natDigits 10 sig).length - s.numSig.toNat),
+        x + (((natDigits 10 sig).length - s.numSig.toNat : Nat) : Int)) := by
+  generalize hds : natDigits 10 sig = ds at *
+  have had : AllDigit ds := by rw [← hds]; exact natDigits_allDigit sig
+  have hsl : slice ds 1 s.numSig = some ((ds.take s.numSig.toNat).drop 1) := by
+    have : (1 : Int) ≤ s.numSig := by omega
+    simp [slice, this]
+  have hv := natDigits_take_value sig s.numSig.toNat h0 (by rw [hds]; omega)
+  rw [hds] at hv
+  refine ⟨ds.take 1 ++ ['.'] ++ (ds.take s.numSig.toNat).drop 1 ++ ['e'] ++ intText 10 (x + ds.length - 1),
+    by simp only [sciText, hsl], ?_⟩
+  have hE := expValue_intText (x + ds.length - 1)
+  have hcat : ds.take 1 ++ (ds.take s.numSig.toNat).drop 1 = ds.take s.numSig.toNat :=
+    take_one_append_drop ds _ (by omega)
+  have := unsignedDecimal_dot (ds.take 1) ((ds.take s.numSig.toNat).drop 1)
+    ('e' :: intText 10 (x + ds.length - 1)) (allDigit_take had 1) (allDigit_drop (allDigit_take had _) 1)
+    (Or.inr ⟨_, rfl⟩)
+    (by
+      intro h
+      have hl : (ds.take 1).length = 1 := by simp; omega
+      rw [h.1] at hl; simp at hl)
+    _ (by rw [hcat]; exact hv) _ hE
+  have hl : (((ds.take s.numSig.toNat).drop 1).length : Int) = s.numSig - 1 := by
+    simp only [List.length_drop, List.length_take]; omega
+  rw [hl] at this
+  have he : x + (ds.length : Int) - 1 - (s.numSig - 1) = x + ((ds.length - s.numSig.toNat : Nat) : Int) := by omega
+  rw [he] at this
+  simpa [List.append_assoc] using this
+
+/-- `(m, e)` is the significand `sig·10^x` (a digit string of length `len`, `ns` digits granted by the layout)
+written out in full with its trailing zeros, or cut to its `kept` leading digits -/
+def Kept (sig : Nat) (x : Int) (len : Nat) (ns : Int) (m : Nat) (e : Int) : Prop :=
+  (0 ≤ x ∧ m = sig * 10 ^ x.toNat ∧ e = 0) ∨
+  (∃ kept : Nat, 0 < kept ∧ kept ≤ len ∧ (ns = len → kept = len) ∧
+    m = sig / 10 ^ (len - kept) ∧ e = x + ((len - kept : Nat) : Int))
+
+theorem natDigits_value (sig : Nat) (h0 : 0 < sig) : digitsValue 10 (natDigits 10 sig) 0 = some sig :=
+  natDigitsF_value 10 (by omega) (by omega) sig sig h0 (Nat.le_refl _)
+
+theorem natDigits_ne_nil (sig : Nat) (h0 : 0 < sig) : natDigits 10 sig ≠ [] := by
+  have := natDigitsF_pos 10 sig sig h0
+  intro h; unfold natDigits at h; rw [h] at this; simp at this
+
+/-- the fixed layout reads back as the digits kept -/
+theorem fixedText_denotes (sig : Nat) (h0 : 0 < sig) (i : Info)
+    (hn : i.numSig = (natDigits 10 sig).length) (hm : 0 ≤ i.maxChars)
+    (hpos : 0 < (solveFixed i).numSig) :
+    ∃ t m e, fixedText (natDigits 10 sig) i.exponent (solveFixed i) i.maxChars = some t ∧
+      unsignedDecimal t = some (m, e) ∧
+      Kept sig i.exponent (natDigits 10 sig).length (solveFixed i).numSig m e := by
+  have hfull := natDigits_value sig h0
+  have hnil := natDigits_ne_nil sig h0
+  have htk : ∀ n, n ≤ (natDigits 10 sig).length → digitsValue 10 ((natDigits 10 sig).take n) 0 =
+      some (sig / 10 ^ ((natDigits 10 sig).length - n)) := fun n h => natDigits_take_value sig n h0 h
+  have had : AllDigit (natDigits 10 sig) := natDigits_allDigit sig
+  generalize natDigits 10 sig = ds at *
+  have hlen : 0 < ds.length := List.length_pos_iff.mpr hnil
+  by_cases h : i.numSig + i.exponent > i.maxChars
+  · simp [solveFixed, h] at hpos
+  · by_cases hr : i.exponent < 0
+    · have e1 : (solveFixed i).leadingZeros = max 0 (-(i.numSig + i.exponent)) := by simp [solveFixed, h]
+      have e2 : (solveFixed i).trailingZeros = 0 := by simp [solveFixed, h]; omega
+      have e3 : (solveFixed i).hasRadix = true := by simp [solveFixed, h, hr]
+      have e4 : (solveFixed i).numSig = i.numSig - max 0 (i.numSig + (solveFixed i).leadingZeros + 1 - i.maxChars) := by
+        simp [solveFixed, h, hr]; omega
+      generalize solveFixed i = f at *
+      obtain ⟨ns, nc, L, Tz, hrx⟩ := f
+      simp only at e1 e2 e3 e4 hpos
+      subst e2 e3
+      unfold fixedText
+      simp only [ne_eq, not_true_eq_false, if_false, if_true]
+      generalize hnI : max 0 ((ds.length : Int) + min 0 i.exponent) = nInt
+      by_cases hroom : nInt < i.maxChars
+      · simp only [hroom, if_true]
+        have hle : nInt ≤ ns := by omega
+        have hsl : slice ds nInt ns = some ((ds.take ns.toNat).drop nInt.toNat) := by simp [slice, hle]
+        rw [hsl]
+        have hv := htk ns.toNat (by omega)
+        have hcat : digitsValue 10 (ds.take nInt.toNat ++ (List.replicate L.toNat '0' ++ (ds.take ns.toNat).drop nInt.toNat)) 0
+            = some (sig / 10 ^ (ds.length - ns.toNat)) := by
+          by_cases hz : nInt = 0
+          · rw [hz]; simp only [Int.toNat_zero, List.take_zero, List.nil_append, List.drop_zero]
+            rw [digitsValue_zeros_left]; exact hv
+          · have hL : L.toNat = 0 := by omega
+            rw [hL]; simp only [List.replicate_zero, List.nil_append]
+            rw [take_append_drop_take ds _ _ (by omega)]; exact hv
+        have := unsignedDecimal_dot (ds.take nInt.toNat) (List.replicate L.toNat '0' ++ (ds.take ns.toNat).drop nInt.toNat) []
+          (allDigit_take had _) (allDigit_append (allDigit_zeros _) (allDigit_drop (allDigit_take had _) _))
+          (Or.inl rfl)
+          (by
+            intro hh
+            have hl : (List.replicate L.toNat '0' ++ (ds.take ns.toNat).drop nInt.toNat).length = 0 := by rw [hh.2]; rfl
+            have hl2 : (ds.take nInt.toNat).length = 0 := by rw [hh.1]; rfl
+            simp only [List.length_append, List.length_replicate, List.length_drop, List.length_take] at hl hl2
+            omega)
+          _ hcat 0 rfl
+        have hfl : (0 : Int) - ((List.replicate L.toNat '0' ++ (ds.take ns.toNat).drop nInt.toNat).length : Int) =
+            i.exponent + ((ds.length - ns.toNat : Nat) : Int) := by
+          simp only [List.length_append, List.length_replicate, List.length_drop, List.length_take]
+          omega
+        rw [hfl] at this
+        exact ⟨_, _, _, rfl, by simpa [List.append_assoc] using this, Or.inr ⟨ns.toNat, by omega, by omega, by omega, rfl, rfl⟩⟩
+      · simp only [hroom, if_false]
+        have hv := htk nInt.toNat (by omega)
+        have hne : ds.take nInt.toNat ≠ [] := by
+          intro hh
+          have hl : (ds.take nInt.toNat).length = 0 := by rw [hh]; rfl
+          simp only [List.length_take] at hl
+          omega
+        have := unsignedDecimal_nodot (ds.take nInt.toNat) (allDigit_take had _) hne _ hv
+        exact ⟨_, _, _, rfl, this, Or.inr ⟨nInt.toNat, by omega, by omega, by omega, rfl, by omega⟩⟩
+    · have e1 : (solveFixed i).leadingZeros = max 0 (-(i.numSig + i.exponent)) := by simp [solveFixed, h]
+      have e2 : (solveFixed i).trailingZeros = i.exponent := by simp [solveFixed, h]; omega
+      have e3 : (solveFixed i).hasRadix = false := by simp [solveFixed, h, hr]
+      have e4 : (solveFixed i).numSig = i.numSig := by
+        simp [solveFixed, h, hr]; omega
+      generalize solveFixed i = f at *
+      obtain ⟨ns, nc, L, Tz, hrx⟩ := f
+      simp only at e1 e2 e3 e4 hpos
+      subst e2 e3 e4
+      unfold fixedText
+      simp only
+      have hnI : (max 0 ((ds.length : Int) + min 0 i.exponent)).toNat = ds.length := by omega
+      by_cases htz : i.exponent ≠ 0
+      · simp only [htz, if_true, ne_eq, not_false_eq_true, hnI, List.take_length]
+        have hv := digitsValue_zeros_right i.exponent.toNat ds sig hfull
+        have := unsignedDecimal_nodot (ds ++ List.replicate i.exponent.toNat '0')
+          (allDigit_append had (allDigit_zeros _)) (by simp [hnil]) _ hv
+        exact ⟨_, _, _, rfl, this, Or.inl ⟨by omega, rfl, rfl⟩⟩
+      · have hx0 : i.exponent = 0 := by omega
+        have := unsignedDecimal_nodot ds had hnil _ hfull
+        have hK : Kept sig i.exponent ds.length i.numSig sig 0 := Or.inl ⟨by omega, by simp [hx0], rfl⟩
+        simp only [htz, if_false]
+        by_cases hroom : max 0 ((ds.length : Int) + min 0 i.exponent) < i.maxChars
+        · have hsl : slice ds (max 0 ((ds.length : Int) + min 0 i.exponent)) i.numSig = some [] := by
+            have hle : max 0 ((ds.length : Int) + min 0 i.exponent) ≤ i.numSig := by omega
+            simp only [slice, hle, if_true, hnI]
+            have : i.numSig.toNat = ds.length := by omega
+            rw [this]; simp
+          have hL : L.toNat = 0 := by omega
+          simp only [hroom, if_true, hsl, hnI, List.take_length, hL]
+          exact ⟨_, _, _, rfl, by simpa using this, hK⟩
+        · simp only [hroom, if_false, hnI, List.take_length]
+          exact ⟨_, _, _, rfl, this, hK⟩
+theorem trunc_within_arith (m r sig Pc Pu Pn Pd Pp den num M kc : Nat)
+    (hs : sig = m * Pc + r) (hr : r < Pc) (hkey : Pu * Pn = Pc * Pp * Pd)
+    (hPn : 0 < Pn) (hM : 0 < M) (hden : 0 < den) (hPp : 0 < Pp) (hPd : 0 < Pd)
+    (hv1 : sig * Pp * den ≤ num * Pn)
+    (hv2 : num * Pn * M ≤ sig * Pp * den * M + num * Pn * kc) :
+    m * Pu * den ≤ num * Pd ∧
+    num * Pd * M < m * Pu * den * M + Pu * den * M + num * Pd * kc := by
+  subst hs
+  have hW : 0 < Pp * Pd * den := Nat.mul_pos (Nat.mul_pos hPp hPd) hden
+  -- scaled by Pn
+  have eA : (m * Pu * den) * Pn = m * Pc * (Pp * Pd * den) := by
+    have : m * Pu * den * Pn = m * den * (Pu * Pn) := by grind
+    rw [this, hkey]; grind
+  have eB : (Pu * den) * Pn = Pc * (Pp * Pd * den) := by
+    have : Pu * den * Pn = den * (Pu * Pn) := by grind
+    rw [this, hkey]; grind
+  have f1 := Nat.mul_le_mul_right Pd hv1
+  have f2 := Nat.mul_le_mul_right Pd hv2
+  have f3 : r * (Pp * Pd * den) * M < Pc * (Pp * Pd * den) * M :=
+    Nat.mul_lt_mul_of_pos_right (Nat.mul_lt_mul_of_pos_right hr hW) hM
+  constructor
+  · apply Nat.le_of_mul_le_mul_right _ hPn
+    rw [eA]; grind
+  · apply Nat.lt_of_mul_lt_mul_right (a := Pn)
+    have e1 : (m * Pu * den * M + Pu * den * M + num * Pd * kc) * Pn =
+        (m * Pu * den * Pn) * M + (Pu * den * Pn) * M + num * Pd * kc * Pn := by grind
+    rw [e1, eA, eB]
+    grind
+theorem within_intro (neg : Bool) (m : Nat) (e : Int) (num den aN aD : Nat)
+    (h1 : m * 10 ^ e.toNat * den ≤ num * 10 ^ (-e).toNat)
+    (h2 : num * 10 ^ (-e).toNat * aD <
+      m * 10 ^ e.toNat * den * aD + 10 ^ e.toNat * den * aD + num * 10 ^ (-e).toNat * aN) :
+    (⟨neg, m, e⟩ : Dec).within num den aN aD = true := by
+  have u1 : (max e 0).toNat = e.toNat := by omega
+  have u2 : (max (-e) 0).toNat = (-e).toNat := by omega
+  simp only [Dec.within, u1, u2, Bool.and_eq_true, decide_eq_true_eq]
+  refine ⟨h1, ?_⟩
+  have h3 := Nat.mul_le_mul_right aD h1
+  rw [Nat.sub_mul]
+  omega
+
+theorem exactly_intro (neg : Bool) (m : Nat) (e : Int) (num den : Nat)
+    (h1 : m * 10 ^ e.toNat * den = num * 10 ^ (-e).toNat) :
+    (⟨neg, m, e⟩ : Dec).exactly num den = true := by
+  have u1 : (max e 0).toNat = e.toNat := by omega
+  have u2 : (max (-e) 0).toNat = (-e).toNat := by omega
+  simp only [Dec.exactly, u1, u2, decide_eq_true_eq]
+  exact h1
+
+/-- a value `s·10^x` that is at most `num/den` and short of it by at most `kc/M` of it, printed with the digits
+kept by a layout, passes the oracle's comparison with allowance `kc/M` -/
+theorem kept_within (neg : Bool) (sig : Nat) (x : Int) (len : Nat) (ns : Int) (m : Nat) (e : Int)
+    (hK : Kept sig x len ns m e) (num den M kc : Nat) (hM : 0 < M) (hden : 0 < den)
+    (hv1 : sig * 10 ^ x.toNat * den ≤ num * 10 ^ (-x).toNat)
+    (hv2 : num * 10 ^ (-x).toNat * M ≤ sig * 10 ^ x.toNat * den * M + num * 10 ^ (-x).toNat * kc) :
+    (⟨neg, m, e⟩ : Dec).within num den kc M = true := by
+  apply within_intro
+  all_goals rcases hK with ⟨hx, hm, he⟩ | ⟨kept, hk0, hk1, _, hm, he⟩
+  · subst hm he
+    have : (-x).toNat = 0 := by omega
+    rw [this] at hv1
+    simpa using hv1
+  · have hkey : 10 ^ e.toNat * 10 ^ (-x).toNat = 10 ^ (len - kept) * 10 ^ x.toNat * 10 ^ (-e).toNat := by
+      rw [← Nat.pow_add, ← Nat.pow_add, ← Nat.pow_add]; congr 1; omega
+    have hs : sig = m * 10 ^ (len - kept) + sig % 10 ^ (len - kept) := by
+      rw [hm]; exact (Nat.div_add_mod' _ _).symm
+    exact (trunc_within_arith m _ sig _ _ _ _ _ den num M kc hs (Nat.mod_lt _ (Nat.pow_pos (by omega))) hkey
+      (Nat.pow_pos (by omega)) hM hden (Nat.pow_pos (by omega)) (Nat.pow_pos (by omega)) hv1 hv2).1
+  · subst hm he
+    have h0 : (-x).toNat = 0 := by omega
+    rw [h0] at hv2
+    have : 0 < den * M := Nat.mul_pos hden hM
+    simp only [Int.toNat_zero, Int.neg_zero, Nat.pow_zero, Nat.mul_one, Nat.one_mul] at hv2 ⊢
+    omega
+  · have hkey : 10 ^ e.toNat * 10 ^ (-x).toNat = 10 ^ (len - kept) * 10 ^ x.toNat * 10 ^ (-e).toNat := by
+      rw [← Nat.pow_add, ← Nat.pow_add, ← Nat.pow_add]; congr 1; omega
+    have hs : sig = m * 10 ^ (len - kept) + sig % 10 ^ (len - kept) := by
+      rw [hm]; exact (Nat.div_add_mod' _ _).symm
+    exact (trunc_within_arith m _ sig _ _ _ _ _ den num M kc hs (Nat.mod_lt _ (Nat.pow_pos (by omega))) hkey
+      (Nat.pow_pos (by omega)) hM hden (Nat.pow_pos (by omega)) (Nat.pow_pos (by omega)) hv1 hv2).2
+
+/-- … and is exact when no digit was cut and the value itself is exact -/
+theorem kept_exactly (neg : Bool) (sig : Nat) (x : Int) (len : Nat) (ns : Int) (m : Nat) (e : Int)
+    (hK : Kept sig x len ns m e) (hall : ns = len) (num den : Nat)
+    (hv : sig * 10 ^ x.toNat * den = num * 10 ^ (-x).toNat) :
+    (⟨neg, m, e⟩ : Dec).exactly num den = true := by
+  apply exactly_intro
+  rcases hK with ⟨hx, hm, he⟩ | ⟨kept, hk0, hk1, hkl, hm, he⟩
+  · subst hm he
+    have : (-x).toNat = 0 := by omega
+    rw [this] at hv
+    simpa using hv
+  · have := hkl hall
+    subst this
+    simp only [Nat.sub_self, Nat.pow_zero, Nat.div_one] at hm he
+    subst hm
+    have : e = x := by omega
+    subst this
+    exact hv
+/-- length of the fixed notation that shows all `n` digits: `ddd000`, `dd.ddd`, `.000ddd` -/
+def fixedFullLen (n x : Int) : Int := if x ≥ 0 then n + x else if n + x > 0 then n + 1 else 1 - x
+
+/-- one of the two complete notations fits into `room` characters -/
+def FullFits (i : Info) : Prop :=
+  i.numSig + 2 + i.expChars ≤ i.maxChars ∨ fixedFullLen i.numSig i.exponent ≤ i.maxChars
+
+theorem solveSci_numSig_le (i : Info) : (solveSci i).numSig ≤ i.numSig := by
+  simp only [solveSci]; omega
+
+theorem solveFixed_numSig_le (i : Info) (hn : 0 ≤ i.numSig) : (solveFixed i).numSig ≤ i.numSig := by
+  by_cases h : i.numSig + i.exponent > i.maxChars
+  · simp [solveFixed, h]; exact hn
+  · simp only [solveFixed, h, if_false]; omega
+
+theorem solveSci_full (i : Info) (h : i.numSig + 2 + i.expChars ≤ i.maxChars) : (solveSci i).numSig = i.numSig := by
+  simp only [solveSci]; omega
+
+theorem solveFixed_full (i : Info) (hn : 0 < i.numSig) (h : fixedFullLen i.numSig i.exponent ≤ i.maxChars) :
+    (solveFixed i).numSig = i.numSig := by
+  unfold fixedFullLen at h
+  by_cases hx : i.exponent ≥ 0
+  · rw [if_pos hx] at h
+    have h' : ¬ i.numSig + i.exponent > i.maxChars := by omega
+    have hr : ¬ i.exponent < 0 := by omega
+    simp only [solveFixed, h', if_false, hr, decide_false]
+    simp; omega
+  · rw [if_neg hx] at h
+    have hr : i.exponent < 0 := by omega
+    by_cases hp : i.numSig + i.exponent > 0
+    · rw [if_pos hp] at h
+      have h' : ¬ i.numSig + i.exponent > i.maxChars := by omega
+      simp only [solveFixed, h', if_false, hr, decide_true, if_true]
+      omega
+    · rw [if_neg hp] at h
+      have h' : ¬ i.numSig + i.exponent > i.maxChars := by omega
+      simp only [solveFixed, h', if_false, hr, decide_true, if_true]
+      omega
+
+/-- when a complete notation fits, the selected layout keeps every digit -/
+theorem choose_keeps_all (i : Info) (hn : 0 < i.numSig) (hfit : FullFits i) :
+    (∀ s, choose i = .sci s → s.numSig = i.numSig) ∧ (∀ f, choose i = .fixed f → f.numSig = i.numSig) ∧
+    choose i ≠ .tooLarge := by
+  have a1 := solveSci_numSig_le i
+  have a2 := solveFixed_numSig_le i (by omega)
+  have key : (solveSci i).numSig = i.numSig ∨ (solveFixed i).numSig = i.numSig := by
+    rcases hfit with h | h
+    · exact Or.inl (solveSci_full i h)
+    · exact Or.inr (solveFixed_full i hn h)
+  by_cases h1 : (solveSci i).numSig > 0 ∧ tupGt (solveSci i).numSig (-(solveSci i).numChars) (solveFixed i).numSig (-(solveFixed i).numChars) = true
+  · have hc : choose i = .sci (solveSci i) := by unfold choose; exact if_pos h1
+    have ht := h1.2
+    simp only [tupGt, Bool.or_eq_true, Bool.and_eq_true, decide_eq_true_eq] at ht
+    rw [hc]
+    refine ⟨?_, ?_, ?_⟩
+    · intro s hs; cases hs; omega
+    · intro f hf; cases hf
+    · intro h; cases h
+  · have hfs : (solveFixed i).numSig = i.numSig := by
+      rcases key with k | k
+      · have hp : (solveSci i).numSig > 0 := by omega
+        have ht : ¬ tupGt (solveSci i).numSig (-(solveSci i).numChars) (solveFixed i).numSig (-(solveFixed i).numChars) = true :=
+          fun h => h1 ⟨hp, h⟩
+        simp only [tupGt, Bool.or_eq_true, Bool.and_eq_true, decide_eq_true_eq] at ht
+        omega
+      · exact k
+    have h2 : (solveFixed i).numSig > 0 := by omega
+    have hc : choose i = .fixed (solveFixed i) := by unfold choose; rw [if_neg h1, if_pos h2]
+    rw [hc]
+    refine ⟨?_, ?_, ?_⟩
+    · intro s hs; cases hs
+    · intro f hf; cases hf; exact hfs
+    · intro h; cases h
+
+/-- the `Info` that `to_chars_positive` builds -/
+def infoOf (len first n : Nat) (x : Int) : Info :=
+  ⟨(n : Int), x, (len : Int) - first, ((intText 10 (x + n - 1)).length : Int)⟩
+
+/-- `_impl::to_chars_positive` on the digit string of `sig > 0` with exponent `x`: either `value_too_large` and
+nothing written, or the text `t` written at `first` reads back (independent reader) as `m·10^e`, which is
+`sig·10^x` in full or cut to its leading digits (`Kept`); all digits are kept when a complete notation fits -/
+theorem toCharsPositive_denotes (b : Buf) (first : Nat) (sig : Nat) (h0 : 0 < sig) (x : Int) (hf : first ≤ b.len) :
+    toCharsPositive b first (natDigits 10 sig) x = .ok ⟨some b.len, false, b⟩ ∨
+    ∃ (t : List Char) (m : Nat) (e ns : Int), 0 < t.length ∧ first + t.length ≤ b.len ∧
+      toCharsPositive b first (natDigits 10 sig) x = .ok ⟨some (first + t.length), true,
+        ⟨b.len, b.cells.take first ++ t.map some ++ b.cells.drop (first + t.length)⟩⟩ ∧
+      unsignedDecimal t = some (m, e) ∧ Kept sig x (natDigits 10 sig).length ns m e ∧
+      (FullFits (infoOf b.len first (natDigits 10 sig).length x) → ns = (natDigits 10 sig).length) := by
+  have hds := natDigits_ne_nil sig h0
+  have hlen : 0 < (natDigits 10 sig).length := List.length_pos_iff.mpr hds
+  unfold toCharsPositive toCharsPositiveWith infoOf
+  simp only
+  generalize hE : intText 10 (x + ↑(natDigits 10 sig).length - 1) = expText
+  generalize hI : (⟨((natDigits 10 sig).length : Int), x, (b.len : Int) - first, (expText.length : Int)⟩ : Info) = info
+  have hn : info.numSig = (natDigits 10 sig).length := by rw [← hI]
+  have he : info.expChars = expText.length := by rw [← hI]
+  have hx : info.exponent = x := by rw [← hI]
+  have hmc : info.maxChars = (b.len : Int) - first := by rw [← hI]
+  have hm0 : 0 ≤ info.maxChars := by omega
+  cases hc : choose info with
+  | tooLarge => exact Or.inl rfl
+  | sci s =>
+    obtain ⟨hs, hpos⟩ := choose_sci hc
+    right
+    have hle : s.numSig ≤ (natDigits 10 sig).length := by
+      rw [hs]; have := solveSci_numSig_le info; omega
+    obtain ⟨t, ht, hu⟩ := sciText_denotes sig h0 x s hpos hle
+    obtain ⟨t', ht', hl⟩ := sciText_length (natDigits 10 sig) info expText hn he (by rw [← hs]; exact hpos)
+    rw [hE, hs] at ht
+    rw [ht] at ht'; cases ht'
+    have hfit := sci_fits info (by rw [← hs]; exact hpos) (by omega)
+    have hnc : 0 < (solveSci info).numChars := by
+      have := hpos; rw [hs] at this; simp only [solveSci] at this ⊢; omega
+    have hput : first + t.length ≤ b.len := by omega
+    refine ⟨t, _, _, s.numSig, by omega, hput, ?_, hu, ?_, ?_⟩
+    · have hnp : ¬ (s.numSig ≤ 0) := by omega
+      rw [← hs] at ht
+      simp only [hnp, if_false, ht, fillText, put_ok b first t hput]
+      have : ¬ ((t.length : Int) ≠ s.numChars) := by rw [hs]; omega
+      simp only [this, if_false]
+    · exact Or.inr ⟨s.numSig.toNat, by omega, by omega, by omega, rfl, rfl⟩
+    · intro hff
+      have := (choose_keeps_all info (by omega) hff).1 s hc
+      omega
+  | fixed f =>
+    obtain ⟨hs, hpos⟩ := choose_fixed hc
+    subst hs
+    right
+    obtain ⟨t, m, e, ht, hu, hK⟩ := fixedText_denotes sig h0 info hn hm0 hpos
+    obtain ⟨t', ht', hl⟩ := fixedText_length (natDigits 10 sig) info hn hm0 hpos
+    rw [ht] at ht'; cases ht'
+    have hfit := fixed_fits info hpos
+    have hge := fixed_numSig_le_numChars info hpos
+    have hput : first + t.length ≤ b.len := by omega
+    rw [hx] at hK
+    refine ⟨t, m, e, (solveFixed info).numSig, by omega, hput, ?_, hu, hK, ?_⟩
+    · rw [hx, hmc] at ht
+      simp only [ht, fillText, put_ok b first t hput]
+      have : ¬ ((t.length : Int) ≠ (solveFixed info).numChars) := by omega
+      simp only [this, if_false]
+    · intro hff
+      have := (choose_keeps_all info (by omega) hff).2.1 _ hc
+      omega
+
+/-! ### the text of the result and its sign -/
+
+theorem text_of_splice (len first : Nat) (cells : List (Option Char)) (t pre : List Char) (ok : Bool)
+    (hpre : cells.take first = pre.map some) (hl : pre.length = first) :
+    TCR.text ⟨some (first + t.length), ok,
+      ⟨len, cells.take first ++ t.map some ++ cells.drop (first + t.length)⟩⟩ = pre ++ t := by
+  unfold TCR.text
+  simp only
+  rw [hpre]
+  have : (pre.map some ++ t.map some).length = first + t.length := by simp [hl]
+  rw [List.take_left' this]
+  simp [List.map_append, Function.comp_def]
+
+theorem unsignedDecimal_minus (rest : List Char) : unsignedDecimal ('-' :: rest) = none := by
+  have h : isDigit '-' = false := by decide
+  simp [unsignedDecimal, spanDigits, h]
+
+theorem decimalValue_neg (t : List Char) (m : Nat) (e : Int) (h : unsignedDecimal t = some (m, e)) :
+    decimalValue ('-' :: t) = some ⟨true, m, e⟩ := by
+  simp [decimalValue, h]
+
+theorem decimalValue_pos (t : List Char) (m : Nat) (e : Int) (h : unsignedDecimal t = some (m, e)) :
+    decimalValue t = some ⟨false, m, e⟩ := by
+  unfold decimalValue
+  split
+  · rw [unsignedDecimal_minus] at h; cases h
+  · simp [h]
+
 end Cnl.Charconv
